@@ -189,6 +189,7 @@ def run(tier, seed, replay=None):
                                       "impl_generics": decl_can, "model_index": resp[:0]})
         # ---------------- oracle
         fail = None
+        dead_collision = False
         ren = {"lt": {}, "ty": {}, "co": {}}
         for (k1, a), (k2, b) in zip(decl_raw, decl_can):
             ren[k1][a] = b
@@ -199,12 +200,20 @@ def run(tier, seed, replay=None):
         for (k1, a), (_, b) in zip(decl_raw, decl_can):
             per_kind.setdefault(k1, []).append(b)
         # injective: distinct parameters of one kind keep distinct names; indexed ones use _ŠČ0.._ŠČ(k-1) exactly once overall
+        # a declared parameter that occurs nowhere else in the block is never indexed and keeps the user's spelling
+        dead = {a for (k1, a) in decl_raw if len(re.findall(r"(?<![A-Za-z0-9_\u0100-\uffff])" + re.escape(a) + r"(?![A-Za-z0-9_\u0100-\uffff])", text)) <= 1}
         for k1, lst in per_kind.items():
             if len(set(lst)) != len(lst):
                 fail = {"clause": "distinct parameters must receive distinct names", "names": lst}
+                dup = {b for b in lst if lst.count(b) > 1}
+                if all(any(a in dead and a == b for (k0, a), (_, b2) in zip(decl_raw, decl_can) if k0 == k1 and b2 == b) for b in dup) \
+                        and any(f_["id"] == "F-C13-dead-parameter-reserved-name" for f_ in C.findings_for(PROP)):
+                    rep.known("F-C13-dead-parameter-reserved-name")
+                    fail = None
+                    dead_collision = True
         idxs = sorted(int(b[len(PARAM_PREFIX):]) for _, b in decl_can if re.fullmatch(re.escape(PARAM_PREFIX) + r"\d+", b))
         # occurrences: the canonical block is the raw block under the renaming read off the generics list
-        if not fail:
+        if not fail and not dead_collision:
             want = norm_paths(independent_rename(renameless_generics(raw, decl_can), ren), PARAM_PREFIX)
             got = norm_paths(can, PARAM_PREFIX)
             if want != got:
@@ -222,7 +231,7 @@ def run(tier, seed, replay=None):
         # declared parameters with their bounds as a sorted list)
         gen = can[3][3]
         # parameters that occur nowhere are never indexed and keep the user's spelling: not part of the comparison
-        decls = sorted(tref.show(p_, 100000) for p_, (_, nm) in zip(gen[3][1][3], decl_can) if nm.startswith(PARAM_PREFIX))
+        decls = sorted(tref.show(p_, 100000) for p_, (_, nm), (_, a) in zip(gen[3][1][3], decl_can, decl_raw) if nm.startswith(PARAM_PREFIX) and a not in dead)
         hdr = (can[3][4], can[3][5], gen[3][3], can[3][6], tref.N("Decls", decls))
         headers.setdefault(grp, []).append((v, hdr, text, qself_capture(raw, ren)))
     for grp, lst in headers.items():
